@@ -145,7 +145,7 @@ impl Snapshot {
 }
 
 /// `Snapshot::decode`: the delete set, then the state vector
-pub open spec fn dec_snapshot(s: Seq<u8>) -> Option<((Map<ClientID, Seq<Ent<()>>>, Map<ClientID, u32>), nat)> {
+pub open spec fn dec_snapshot(s: Seq<u8>) -> Option<((Seq<IdItem>, Map<ClientID, u32>), nat)> {
     match dec_idset(s) {
         None => None,
         Some((ds, k)) => match dec_sv(s.skip(k as int)) {
@@ -156,15 +156,17 @@ pub open spec fn dec_snapshot(s: Seq<u8>) -> Option<((Map<ClientID, Seq<Ent<()>>
 }
 
 impl Decode for Snapshot {
-    // TOTAL + PROGRESS, bounded result, v1: equality with `dec_snapshot`
+    // TOTAL + PROGRESS, bounded result, the delete set satisfies the representation invariant (wf_map: canonical, no empty
+    // entry); v1: the delete set is THE set of the decoded client sections (`idset_of`), the state vector equals `dec_snapshot`'s
     /*@extract yrs/src/state_vector.rs | impl Decode for Snapshot | fn decode | label=snapshot_decode
     @ret res
     @sig
         ensures
             res is Ok ==> 2 * res->Ok_0.delete_set@.len() + 2 * res->Ok_0.state_map@.len() < old(decoder).rest().len() - final(decoder).rest().len(),
             res is Ok ==> ranges_ordered(res->Ok_0.delete_set@),
+            res is Ok ==> wf_map(res->Ok_0.delete_set@),
             D::v1() ==> match dec_snapshot(old(decoder).rest()) {
-                Some((v, k)) => res is Ok && res->Ok_0.delete_set@ == v.0 && res->Ok_0.state_map@ == v.1 && k <= old(decoder).rest().len()
+                Some((v, k)) => res is Ok && idset_of(v.0, res->Ok_0.delete_set@) && res->Ok_0.state_map@ == v.1 && k <= old(decoder).rest().len()
                     && final(decoder).rest() == old(decoder).rest().skip(k as int),
                 None => res is Err,
             },
